@@ -134,10 +134,63 @@ def gen_history(rng):
     for opi in range(n):
         choices = []
         if focus in ("eph", "mixed"):
-            choices += [("mk-key", 4), ("unroot", 3), ("mk-eph", 5), ("drop-eph", 1), ("gc", 4), ("query", 5), ("holes", 2)]
+            choices += [("mk-key", 4), ("unroot", 3), ("mk-eph", 5), ("drop-eph", 1), ("gc", 4), ("query", 5), ("holes", 2), ("motif", 2)]
         if focus in ("ports", "mixed"):
             choices += [("open", 4), ("read", 3), ("close", 2), ("drop-port", 3), ("fdcount", 3), ("gc", 3)]
         op = rng.weighted(choices)
+        if op == "motif":
+            # short scripted sequences (made of the same operations, so the model follows them) for situations random histories reach
+            # only rarely: (1) an ephemeron whose value IS another key that is rooted elsewhere, the first key released and collected
+            # while the value is still held, then the value released; (2) a three-link chain built in a fragmented heap with large
+            # values, later links allocated first, and only the head key kept
+            def mk_key(i, big=False):
+                expr, _w = key_expr(rng, i)
+                if big:
+                    expr = "(make-vector 40 'k%d-%d)" % (i, rng.below(1000))
+                m.add_key(i)
+                ops.append({"src": "(vector-set! K %d %s) #t" % (i, expr), "kind": "mk-key", "slot": i})
+
+            def mk_eph(e, i, vexpr, vspec):
+                m.add_eph(e, i, vspec, opi)
+                ops.append({"src": "(vector-set! E %d (make-ephemeron (vector-ref K %d) %s)) #t" % (e, i, vexpr), "kind": "mk-eph", "slot": e, "kslot": i, "vspec": vspec})
+
+            def unroot(i):
+                m.key.pop(i, None)
+                ops.append({"src": "(vector-set! K %d #f) #t" % i, "kind": "unroot", "slot": i})
+
+            def gc_and_look(es):
+                ops.append({"op": "gc", "kind": "gc"})
+                for e in es:
+                    ops.append(query_op(e))
+            ks = rng.sample(list(range(NK)), 3)
+            es = rng.sample(list(range(NE)), 3)
+            if rng.chance(1, 2):
+                a, b = ks[0], ks[1]
+                mk_key(a); mk_key(b)
+                mk_eph(es[0], a, "(vector-ref K %d)" % b, ["key", b])
+                tag = "v%d" % rng.below(100000)
+                mk_eph(es[1], b, "(list '%s (string-append \"s\" \"%s\"))" % (tag, tag), ["fresh", '(%s "s%s")' % (tag, tag)])
+                unroot(a)
+                gc_and_look([es[0], es[1]])
+                unroot(b)
+                gc_and_look([es[1], es[0]])
+                if rng.chance(1, 2):
+                    gc_and_look([es[1]])
+            else:
+                a, b, c = ks
+                ops.append({"src": "(set! H (let loop ((i 0) (acc '())) (if (= i %d) acc (begin (cons 'junk i) (loop (+ i 1) (cons i acc)))))) #t" % rng.choice([300, 2000]), "kind": "holes"})
+                ops.append({"op": "gc", "kind": "gc"})
+                mk_key(a); mk_key(b, rng.chance(1, 2)); mk_key(c, rng.chance(1, 2))
+                tag = "v%d" % rng.below(100000)
+                mk_eph(es[2], c, "(list '%s (string-append \"s\" \"%s\"))" % (tag, tag), ["fresh", '(%s "s%s")' % (tag, tag)])
+                mk_eph(es[1], b, "(make-vector 60 (vector-ref K %d))" % c, ["key", c])
+                mk_eph(es[0], a, "(make-vector 60 (vector-ref K %d))" % b, ["key", b])
+                unroot(b); unroot(c)
+                gc_and_look([es[0], es[1], es[2]])
+                if rng.chance(1, 2):
+                    ops.append({"src": "(set! H #f) #t", "kind": "holes"})
+                    gc_and_look([es[2], es[1]])
+            continue
         if op == "mk-key":
             i = rng.below(NK)
             expr, written = key_expr(rng, i)
